@@ -11,7 +11,24 @@ Check (C11_store_roundtrip : forall v rest,
   dec extracted_schema (S (vdepth v)) (TRef (i_ "AnnotationStore")) (enc extracted_schema (TRef (i_ "AnnotationStore")) v ++ rest)
   = Some (reload extracted_schema (TRef (i_ "AnnotationStore")) v, rest)).
 Check (C11_skipped_rederivable : only_allowed_erased extracted_schema = true /\ codecs_known extracted_schema = true).
+Check (C11_reload_at_rest : forall (S : schema), wf_schema S = true ->
+  forall t v, ty_wf S t = true -> ht S t v = true ->
+  ht S t (reload S t v) = true /\ reload S t (reload S t v) = reload S t v).
+Check (C11_encoding_wellformed : forall (S : schema), wf_schema S = true ->
+  forall t v, ty_wf S t = true -> ht S t v = true -> wellformed_items 1 (enc S t v) = true).
+Check (C11_file_roundtrip : forall (S : schema), wf_schema S = true ->
+  forall t v, ty_wf S t = true -> ht S t v = true ->
+  forallb tok_ok (enc S t v) = true -> vdepth v <= length (enc S t v) ->
+  load_bytes S t (save_bytes S t v) = Some (reload S t v)).
+Check (C11_bytes_roundtrip : forall ts fuel, forallb tok_ok ts = true -> length ts <= fuel ->
+  toks_of_bytes fuel (bytes_of_toks ts) = Some ts).
 Print Assumptions C11_roundtrip_generic.
 Print Assumptions C11_schema_wf.
 Print Assumptions C11_store_roundtrip.
 Print Assumptions C11_skipped_rederivable.
+Print Assumptions C11_reload_at_rest.
+Print Assumptions C11_second_generation.
+Print Assumptions C11_file_determines_store.
+Print Assumptions C11_encoding_wellformed.
+Print Assumptions C11_bytes_roundtrip.
+Print Assumptions C11_file_roundtrip.
